@@ -68,8 +68,9 @@ def ds_op(ctx, struct, op, dim, args=None, attrs_kept=True):
         idx = list(qs)
         if any(find(L, q) is None for q in qs) and any(dim not in r.dims for r in st['vars'].values()):
             pass
-    elif op == 'interp_axis':
+    elif op in ('interp_axis', 'interp_axis-fills'):
         qs = [ctx.real('q%d' % j) for j in range(args.get('k', 1))]
+        fills = {'left': ctx.real('fl'), 'right': ctx.real('fr')} if op == 'interp_axis-fills' else {}
         present = True
         idx = list(qs)
         so = sorted(range(n), key=lambda i: L[i]) if n > 1 else [0]
@@ -125,6 +126,8 @@ def ds_op(ctx, struct, op, dim, args=None, attrs_kept=True):
             return ds.reindex_axis(idx, axis=dim)
         if op == 'interp_axis':
             return ds.interp_axis(idx, axis=dim)
+        if op == 'interp_axis-fills':
+            return ds.interp_axis(idx, axis=dim, **fills)
         raise ValueError(op)
 
     def varf(v):
@@ -154,6 +157,8 @@ def ds_op(ctx, struct, op, dim, args=None, attrs_kept=True):
             return v.reindex_axis(idx, axis=dim)
         if op == 'interp_axis':
             return v.interp_axis(idx, axis=dim)
+        if op == 'interp_axis-fills':
+            return v.interp_axis(idx, axis=dim, **fills)
     r = ctx.call(dsf)
     if not present:
         return ctx.done(r == ('exc', 'IndexError'), r[1] if r[0] != 'ok' else ctx.observe(r[1]))
@@ -254,10 +259,17 @@ def ds_join(ctx, struct, how, dim=None, align=False):
         keys = [ctx.int('key0'), ctx.int('key1')]
         ctx.assume(keys[0] != keys[1])
         kw = {'align': True} if align else {}
-        r = ctx.call(lambda: da.stack_ds([ds1, ds2] if not isinstance(align, str) else {'p': ds1, 'q': ds2}, axis='k', keys=list(keys) if not isinstance(align, str) else None, **kw))
-        if isinstance(align, str):
-            keys = ['p', 'q']
-        exp = dict((k, ctx.call(lambda: da.stack([ds1[k], ds2[k]], axis='k', keys=list(keys), **kw))) for k in ds1.keys())
+        if align in ('dict-rev', 'dict-subset'):
+            # a dict of datasets with explicit keys in another order / a subset: the keys say which dataset goes where
+            kw = {}
+            dkeys = ['q', 'p'] if align == 'dict-rev' else ['q']
+            r = ctx.call(lambda: da.stack_ds({'p': ds1, 'q': ds2}, axis='k', keys=list(dkeys)))
+            exp = dict((k, ctx.call(lambda: da.stack({'p': ds1[k], 'q': ds2[k]}, axis='k', keys=list(dkeys)))) for k in ds1.keys())
+        else:
+            r = ctx.call(lambda: da.stack_ds([ds1, ds2] if not isinstance(align, str) else {'p': ds1, 'q': ds2}, axis='k', keys=list(keys) if not isinstance(align, str) else None, **kw))
+            if isinstance(align, str):
+                keys = ['p', 'q']
+            exp = dict((k, ctx.call(lambda: da.stack([ds1[k], ds2[k]], axis='k', keys=list(keys), **kw))) for k in ds1.keys())
         have = list(ds1.keys())
     else:
         have = [k for k, ref in st1['vars'].items() if dim in ref.dims]
@@ -289,7 +301,7 @@ def templates():
     structs = ['a_x', 'a_xy', 'a_x-b_yx', 'a_xy-b_y-c_0', 'a_y-b_xz', 'a_xyz-b_zy-c_x']
     ops = ['take-scalar', 'take-list', 'take-dict', 'take-axisname', 'loc-scalar', 'loc-list', 'sel-scalar', 'ix-scalar', 'ix-list', 'isel-scalar',
            'mean', 'std', 'var', 'median', 'sum', 'take_axis', 'take_axis_pos', 'sort_axis', 'reindex_axis', 'interp_axis',
-           'mean-pos', 'sum-pos', 'median-pos', 'mean-default', 'sum-default', 'reindex_axis-axisobj', 'take-keepdims', 'take-keepdims-axis', 'ix-keepdims']
+           'mean-pos', 'sum-pos', 'median-pos', 'mean-default', 'sum-default', 'reindex_axis-axisobj', 'take-keepdims', 'take-keepdims-axis', 'ix-keepdims', 'interp_axis-fills']
     for sname in structs:
         dims = []
         for _, ds_ in STRUCTS[sname]:
@@ -298,9 +310,9 @@ def templates():
                     dims.append(d)
         for dim in dims:
             for op in ops:
-                if op == 'interp_axis' and LK[DIMS.index(dim)] == 'U':
+                if op.startswith('interp_axis') and LK[DIMS.index(dim)] == 'U':
                     continue
-                if op == 'interp_axis' and SIZES[dim] < 2:
+                if op.startswith('interp_axis') and SIZES[dim] < 2:
                     continue
                 if op.endswith('-default') and dim != dims[0]:
                     continue
@@ -313,6 +325,8 @@ def templates():
     for sname in ('a_x', 'a_x-b_yx', 'a_xy-b_y-c_0'):
         add('stack_ds-%s' % sname, 'ds_join', cost=1, struct=sname, how='stack')
         add('stack_ds-dict-%s' % sname, 'ds_join', cost=1, struct=sname, how='stack', align='dict')
+        add('stack_ds-dict-rev-%s' % sname, 'ds_join', cost=1, struct=sname, how='stack', align='dict-rev')
+        add('stack_ds-dict-subset-%s' % sname, 'ds_join', cost=1, struct=sname, how='stack', align='dict-subset')
     add('stack_ds-align-a_x', 'ds_join', cost=2, struct='a_x', how='stack', align=True, dim='x')
     add('stack_ds-align-a_x-b_yx', 'ds_join', cost=4, struct='a_x-b_yx', how='stack', align=True, dim='x')
     add('concatenate_ds-align-a_xy-y', 'ds_join', cost=4, struct='a_xy', how='concat', dim='y', align=True)
